@@ -156,4 +156,155 @@ theorem eval_sim_step {σ : Sh} {fuel : Nat} (ih : SimSpec σ fuel) :
   intro _ _ s2 t2 hR2 _
   exact sim_evalTail hR2 result
 
+theorem sim_envSet' {σ : Sh} {s t : St} (hR : StR σ s t) (e : Nat) (name : String) {a val : Obj}
+    (ha : a = ren σ val) : SimAt σ (envSet (sh σ e) name a) (envSet e name val) s t (QO σ) := by
+  subst ha; exact sim_envSet hR e name val
+
+theorem evalI_sim_step {σ : Sh} {fuel : Nat} (ih : SimSpec σ fuel) :
+    ∀ node s t, StR σ s t → SimAt σ (evalI (fuel + 1) node) (evalI (fuel + 1) node) s t (QO σ) := by
+  intro node s t hR
+  unfold Grol.E.evalI
+  refine SimAt.bind_read (runM_get s) (runM_get t) ?_
+  extract_lets jp
+  have hjp : ∀ s0 t0, StR σ s0 t0 → SimAt σ (jp ()) (jp ()) s0 t0 (QO σ) := by
+    intro s0 t0 hR0
+    unfold jp
+    split
+    · exact ih.evalStatements _ .null _ _ hR0
+    · exact ih.evalIf _ _ _ _ _ hR0
+    · exact ih.evalFor _ _ _ _ hR0
+    · exact sim_evalIdentifier hR0 _
+    · -- prefix
+      refine SimAt.ite (fun _ => sim_evalPrefixIncrDecr hR0 _ _) (fun _ => ?_)
+      refine SimAt.bind (ih.eval _ _ _ hR0) ?_
+      rintro _ r s1 t1 hR1 rfl
+      rw [ren_isError, evalPrefixOp_ren]
+      exact SimAt.ite (fun _ => SimAt.pure hR1 rfl) (fun _ => SimAt.pure hR1 rfl)
+    · exact sim_evalPostfix hR0 _ _
+    · -- infix
+      next op l r =>
+      refine SimAt.ite (fun _ => ?_) (fun _ => ?_)
+      · refine SimAt.bind (ih.eval _ _ _ hR0) ?_
+        rintro _ right s1 t1 hR1 rfl
+        exact ih.evalAssignment _ _ _ _ _ hR1
+      · refine SimAt.bind (ih.eval _ _ _ hR0) ?_
+        rintro _ left s1 t1 hR1 rfl
+        rw [ren_isError]
+        refine SimAt.ite (fun _ => SimAt.pure hR1 rfl) (fun _ => ?_)
+        extract_lets a1 a2 a3 a4 a5 a6
+        have h1 : ∀ u s2 t2, StR σ s2 t2 → SimAt σ (a1 u) (a4 u) s2 t2 (QO σ) := by
+          intro u s2 t2 hR2
+          unfold a1 a4
+          refine SimAt.bind (ih.eval _ _ _ hR2) ?_
+          rintro _ right s3 t3 hR3 rfl
+          rw [ren_isError]
+          refine SimAt.ite (fun _ => SimAt.pure hR3 rfl) (fun _ => ?_)
+          dsimp only
+          cases left with
+          | array els =>
+            simp only [ren, renL_length]
+            refine SimAt.bind_read (runM_get s3) (runM_get t3) ?_
+            rw [hR3.cfg]
+            refine sim_noteHazard_bind hR3 _ _ _ (fun s4 t4 hR4 => ?_)
+            have := sim_evalInfixOp hR4 op (.array els) right
+            simp only [ren] at this
+            exact this
+          | _ => all_goals exact sim_evalInfixOp hR3 op _ right
+        have h2 : ∀ u s2 t2, StR σ s2 t2 → SimAt σ (a2 u) (a5 u) s2 t2 (QO σ) := by
+          intro u s2 t2 hR2
+          unfold a2 a5
+          refine SimAt.ite (fun _ => ?_) (fun _ => h1 () _ _ hR2)
+          cases left with
+          | str x =>
+            simp only [ren]
+            exact SimAt.ite (fun _ => SimAt.stop_bind hR2) (fun _ => h1 () _ _ hR2)
+          | _ => all_goals exact h1 () _ _ hR2
+        have h3 : ∀ u s2 t2, StR σ s2 t2 → SimAt σ (a3 u) (a6 u) s2 t2 (QO σ) := by
+          intro u s2 t2 hR2
+          unfold a3 a6
+          refine SimAt.ite (fun _ => ?_) (fun _ => h2 () _ _ hR2)
+          cases left with
+          | bool b => cases b <;> first | exact SimAt.pure hR2 rfl | exact h2 () _ _ hR2
+          | _ => all_goals exact h2 () _ _ hR2
+        refine SimAt.ite (fun _ => ?_) (fun _ => h3 () _ _ hR1)
+        cases left with
+        | bool b => cases b <;> first | exact SimAt.pure hR1 rfl | exact h3 () _ _ hR1
+        | _ => all_goals exact h3 () _ _ hR1
+    · exact SimAt.pure hR0 rfl
+    · exact SimAt.pure hR0 rfl
+    · exact SimAt.pure hR0 rfl
+    · exact SimAt.pure hR0 rfl
+    · exact SimAt.pure hR0 rfl
+    · -- return
+      split
+      · exact SimAt.pure hR0 rfl
+      · refine SimAt.bind (ih.evalI _ _ _ hR0) ?_
+        rintro _ v s1 t1 hR1 rfl
+        exact SimAt.pure hR1 rfl
+    · exact ih.evalBuiltin _ _ _ _ hR0
+    · -- function literal
+      next name params variadic lambda key body =>
+      refine sim_curEnv_bind hR0 ?_
+      dsimp only
+      cases name with
+      | some n =>
+        dsimp only
+        refine SimAt.bind (sim_envSet' hR0 t0.cur n rfl) ?_
+        rintro _ oerr s1 t1 hR1 rfl
+        rw [ren_isError]
+        exact SimAt.ite (fun _ => SimAt.pure hR1 rfl) (fun _ => SimAt.pure hR1 rfl)
+      | none => exact SimAt.pure hR0 rfl
+    · -- call
+      refine SimAt.bind (ih.eval _ _ _ hR0) ?_
+      rintro _ f s1 t1 hR1 rfl
+      rw [ren_isError]
+      refine SimAt.ite (fun _ => SimAt.pure hR1 rfl) (fun _ => ?_)
+      refine SimAt.bind (ih.evalExpressions _ [] _ _ hR1) ?_
+      rintro _ r s2 t2 hR2 rfl
+      cases r with
+      | error e => exact SimAt.pure hR2 rfl
+      | ok argv =>
+        simp only [renEx]
+        cases f with
+        | ext name => exact ih.applyExtension _ _ _ _ hR2
+        | _ => all_goals exact ih.applyFunction _ _ _ _ hR2
+    · -- array literal
+      refine SimAt.bind (ih.evalExpressions _ [] _ _ hR0) ?_
+      rintro _ r s1 t1 hR1 rfl
+      cases r with
+      | error e => exact SimAt.pure hR1 rfl
+      | ok v =>
+        simp only [renEx]
+        refine SimAt.bind (sim_derefList v s1 t1 hR1) ?_
+        rintro _ vs s2 t2 hR2 rfl
+        exact SimAt.pure hR2 rfl
+    · -- map literal
+      refine SimAt.bind_read (runM_get s0) (runM_get t0) ?_
+      rw [hR0.cfg]
+      exact ih.evalMapLiteral _ _ _ [] _ _ hR0
+    · -- index
+      extract_lets jp1
+      have h1 : ∀ u s1 t1, StR σ s1 t1 → SimAt σ (jp1 u) (jp1 u) s1 t1 (QO σ) := by
+        intro u s1 t1 hR1
+        unfold jp1
+        refine SimAt.bind (ih.eval _ _ _ hR1) ?_
+        rintro _ left s2 t2 hR2 rfl
+        exact ih.evalIndexExpression _ _ _ _ _ hR2
+      refine SimAt.ite (fun _ => ?_) (fun _ => h1 () _ _ hR0)
+      refine SimAt.bind_read (runM_get s0) (runM_get t0) ?_
+      rw [hR0.extNames]
+      exact SimAt.ite (fun _ => SimAt.stop_bind hR0) (fun _ => h1 () _ _ hR0)
+    · exact SimAt.pure hR0 rfl
+    · exact SimAt.pure hR0 rfl
+    · exact SimAt.stop hR0
+  have hset : StR σ { s with steps := s.steps + 1 } { t with steps := t.steps + 1 } :=
+    ⟨hR.cfg, hR.extNames, hR.depth, by simp only [hR.steps], hR.outs, hR.cache, hR.cur, hR.root, hR.size, hR.n0, hR.pos,
+      hR.frames, hR.dec⟩
+  refine SimAt.bind (Q := fun _ _ => True) (SimAt.set hset) ?_
+  intro _ _ s0 t0 hR0 _
+  rw [hR.cfg, hR.steps]
+  split
+  · exact SimAt.ite (fun _ => SimAt.pure hR0 rfl) (fun _ => hjp s0 t0 hR0)
+  · exact hjp s0 t0 hR0
+
 end Grol.R
